@@ -966,6 +966,22 @@ pub async fn run(ctx: &Ctx, rep: &mut ShardReport) {
     let mut r = Rng::new(ctx.seed ^ 0xC13 ^ ((ctx.shard as u64) << 24));
     let mut uniq: u128 = 1;
     let replay = ctx.replay.as_ref().and_then(|p| std::fs::read_to_string(p).ok()).and_then(|t| serde_json::from_str::<Value>(&t).ok());
+    // every status code the server can put on the wire decodes to the error it encodes
+    {
+        use iggy::error::IggyError;
+        let generic = IggyError::Error.as_code();
+        let mut known = 0u64;
+        for code in 1..=20_000u32 {
+            let e = IggyError::from_code(code);
+            rep.eval("C13:status-roundtrip");
+            if e.as_code() == code {
+                known += 1;
+            } else if e.as_code() != generic {
+                rep.violation(cv("status-roundtrip", "decodes-to-different-error", json!({"code": code, "decoded_as": e.as_code(), "name": IggyError::from_code_as_string(code)})));
+            }
+        }
+        rep.event_n("status_codes_round_tripped", known);
+    }
     let mut k = 0u64;
     let mut rounds = 0u64;
     while ctx.time_left() {
